@@ -634,8 +634,9 @@ def run(chk: Check):
     ix = Index()
     rule_x1(chk, ir, ix)
     rule_x2(chk, ir)
-    from .c03 import rule_e6
+    from .c03 import rule_e6, rule_t2
     rule_e6(chk, ix)
+    rule_t2(chk, ix)      # input that ends inside a string / brackets / after a backslash must be refused, not quietly end the scan
     rule_x4(chk, ir, ix)
     live = irtools.reachable(irtools.ref_graph(ir.rules), ["file", "eval"])
     rule_x4b(chk, ir, chk.units.get("confined_rules", []), live)
